@@ -5,7 +5,7 @@
 (* (every stage a generated script) through the REAL subproc.call /         *)
 (* Pipeline / Pipeline.write / HostContext.shell_out / connect / a          *)
 (* simple_command spec: one event per phase                                 *)
-(*   spawn  stdin  time  result  after                                      *)
+(*   timing  spawn  stdin  time  result  after                              *)
 (* Every event is judged with the REFERENCE operators of CommandExec        *)
 (* (RefOut, Fail, CertainFail, AllowedKeepRc, FailStatuses, RefEnv,         *)
 (* RefWhich ...) - never with the transcription of the code's mechanism.    *)
@@ -40,6 +40,20 @@ ApiGroup == CASE K.api \in {"call", "pipe", "write", "shell"} -> ":pipeline"
               [] K.api = "prov"    -> ":spec"
               [] OTHER             -> ":spec-stream"
 B(b, s) == IF b THEN s ELSE ""
+
+(* ---- timing: the harness' own assumption.  Time is three instants in the model: whatever does not sleep is ---- *)
+(* over long before a timeout strikes, and a call whose processes all finish is not ended by the watchdog.  On *)
+(* a loaded machine a process may need longer than the (short) timeout just to start.  A first-round trace in  *)
+(* which a stage that certainly runs to its end did not is not judged: the case is run again with longer times *)
+(* (round 2), where every clause applies as it stands.                                                          *)
+MustEnd(i) ==
+    /\ ~Unstartable(K) /\ ~K.st[i].slow /\ ~Shielded(K, i)
+    /\ \A j \in 1..(i - 1) : ~K.st[j].slow
+TimingAccepts ==
+    \/ T.round >= 2
+    \/ /\ Tmo(K) => \A i \in 1..NS : MustEnd(i) => Ev.ended[i]
+       /\ Ev.watchdog => (Unread(K) \/ Unstartable(K))
+TimingDiag == "Assumption:" \o (IF Ev.watchdog THEN "watchdog-ended-a-call-that-should-finish" ELSE "stage-cut-short-by-a-timeout")
 
 (* ---- spawn: what every stage saw ---- *)
 RefLc == CASE K.env = "none" -> "other" [] K.env = "given" -> "unset" [] OTHER -> "C"
@@ -174,14 +188,16 @@ AfterDiag ==
          (IF N(K) = 1 THEN "single-command-not-waited-for" ELSE "earlier-stages-not-waited-for") \o ApiGroup
 
 Accepts ==
-    CASE Ev.ev = "spawn"  -> SpawnAccepts
+    CASE Ev.ev = "timing" -> TimingAccepts
+      [] Ev.ev = "spawn"  -> SpawnAccepts
       [] Ev.ev = "stdin"  -> StdinAccepts
       [] Ev.ev = "result" -> ResultAccepts
       [] Ev.ev = "time"   -> TimeAccepts
       [] Ev.ev = "after"  -> AfterAccepts
       [] OTHER -> FALSE
 Diagnose ==
-    CASE Ev.ev = "spawn"  -> SpawnDiag
+    CASE Ev.ev = "timing" -> TimingDiag
+      [] Ev.ev = "spawn"  -> SpawnDiag
       [] Ev.ev = "stdin"  -> StdinDiag
       [] Ev.ev = "result" -> ResultDiag
       [] Ev.ev = "time"   -> TimeDiag
